@@ -66,6 +66,8 @@ func Weight(v string) uint64 {
 		return 0
 	case v[0] == 'a', v[0] == 'c': // two different values of equal weight
 		return 1
+	case v[0] == 'z': // a live entry of weight 0 (owns no block); used by the content lists of C10 and C12 only
+		return 0
 	default:
 		return 3
 	}
